@@ -62,6 +62,118 @@ func count(m map[string]int) int {
 	return n
 }
 
+// findCode: first unconsumed record of the chain carrying this code.
+func (p *smsSent) findCode(code string) *smsSent {
+	for ; p != nil; p = p.alt {
+		if !p.consumed && p.code == code {
+			return p
+		}
+	}
+	return nil
+}
+
+// afterFault judges a one-time-secret step during which a backend call failed.
+// Whether the step succeeds is then up to where the failure hit; what must
+// still hold is the safety half of the property: a session (or a parked 2FA
+// login) is only issued for an unused value, and that value is gone from
+// storage by then. A value burnt without a login is merely removed from the model.
+func (c *monC12) afterFault(m *Machine, s *Step, prevSMS *smsSent) *Violation {
+	op, r := s.Op, s.Resp
+	m.flag("fault-in-one-time-step")
+	issued := r.UID() != "" && r.UID() != r.UIDBefore()
+	for _, k := range pendingKeys {
+		if r.SessAfter[k] != "" && r.SessAfter[k] != r.SessBefore[k] {
+			issued = true
+		}
+	}
+	take := func(pool map[string]int) {
+		pool[s.Secret]--
+		if pool[s.Secret] <= 0 {
+			delete(pool, s.Secret)
+		}
+		c.spent[s.Secret] = true
+	}
+	fs := ":fault=" + r.Fired
+	if op.K == "otplogin" {
+		pre, ok := s.Pre.Users[s.Pid]
+		if !ok {
+			return nil
+		}
+		post := s.Post.Users[s.Pid]
+		unused := c.otp[s.Pid]
+		had := unused[s.Secret] > 0
+		if issued {
+			if !had {
+				return violation("C12", "otp-outcome-disagrees:not-unused"+fs, "otp login of %q with a value that is not an unused one-time password issued a session although backend call %s failed", s.Pid, r.Fired)
+			}
+			if otpInList(post.OTPs, s.Secret) && unused[s.Secret] == 1 {
+				return violation("C12", "otp-not-consumed"+fs, "otp login of %q issued a session but storage still verifies the used one-time password (backend call %s failed)", s.Pid, r.Fired)
+			}
+			take(unused)
+			m.flag("used:otp")
+		} else if had && len(splitCSV(post.OTPs)) < len(splitCSV(pre.OTPs)) {
+			take(unused)
+			m.flag("burnt-without-login:otp")
+		}
+		return nil
+	}
+	kind := "totp"
+	if op.K == "smsvalidate" {
+		kind = "sms"
+	}
+	who := r.UIDBefore()
+	if who == "" {
+		who = r.SessBefore[pendingKeys[kind]]
+	}
+	pre, ok := s.Pre.Users[who]
+	if !ok {
+		return nil
+	}
+	post := s.Post.Users[who]
+	switch {
+	case op.F && s.Secret != "":
+		unused := c.rec[who]
+		had := unused[s.Secret] > 0
+		if issued {
+			if !had {
+				return violation("C12", "recovery-outcome-disagrees:not-unused:"+op.K+fs, "%s of %q with a recovery code that is not an unused one issued a session although backend call %s failed", op.K, who, r.Fired)
+			}
+			if recoveryInList(post.RecoveryCodes, s.Secret) {
+				return violation("C12", "recovery-not-consumed:"+op.K+fs, "%s of %q issued a session but storage still verifies the used recovery code (backend call %s failed)", op.K, who, r.Fired)
+			}
+			take(unused)
+			m.flag("used:recovery")
+		} else if had && len(splitCSV(post.RecoveryCodes)) < len(splitCSV(pre.RecoveryCodes)) {
+			take(unused)
+			m.flag("burnt-without-login:recovery")
+		}
+	case kind == "sms" && s.Secret != "":
+		if issued {
+			hit := prevSMS.findCode(s.Secret)
+			if hit == nil {
+				return violation("C12", "sms-code-used-twice-or-foreign"+fs, "sms validate of %q issued a session with %q; latest code for this browser: %+v", who, s.Secret, prevSMS)
+			}
+			hit.consumed = true
+			m.flag("used:sms")
+		}
+	case kind == "totp" && m.C.Cfg.OneTimeTOTP && pre.TOTPSecretKey != "":
+		code := strings.TrimSpace(s.Secret)
+		if issued {
+			if c.lastTOTP[who] == code {
+				return violation("C12", "totp-code-accepted-twice:exact"+fs, "with replay protection on, %q logged in twice in a row with the same TOTP code (%q)", who, s.Secret)
+			}
+			if strings.TrimSpace(post.TOTPLastCode) != code {
+				return violation("C12", "totp-last-code-not-saved"+fs, "with replay protection on, %q got a session but the accepted code was not stored (backend call %s failed)", who, r.Fired)
+			}
+			c.lastTOTP[who] = code
+			m.flag("used:totp")
+		} else if post.TOTPLastCode != pre.TOTPLastCode {
+			c.lastTOTP[who] = ""
+		}
+	}
+	return nil
+}
+
 func (c *monC12) After(m *Machine, s *Step) *Violation {
 	defer c.absorb(m, s)
 	if s.Resp == nil {
@@ -72,8 +184,14 @@ func (c *monC12) After(m *Machine, s *Step) *Violation {
 	prevSMS := c.sms[b]
 	if n := len(r.SMS); n > 0 {
 		c.sms[b] = &smsSent{code: r.SMS[n-1].Code, number: r.SMS[n-1].Number}
+		if r.Fired != "" {
+			c.sms[b].alt = prevSMS // the faulted request may not have stored the new code in the session
+		}
 	}
 	accepted := r.Location != "" && r.Rec.HandlerErr == nil && r.Panic == nil && !strings.HasPrefix(r.Location, "/notok")
+	if r.Fired != "" && (op.K == "otplogin" || op.K == "totpvalidate" || op.K == "smsvalidate") {
+		return c.afterFault(m, s, prevSMS)
+	}
 	switch op.K {
 	case "otplogin":
 		pre, ok := s.Pre.Users[s.Pid]
@@ -220,10 +338,11 @@ func (c *monC12) After(m *Machine, s *Step) *Violation {
 		if kind == "sms" && op.K == "smsvalidate" && s.Secret != "" && !op.F {
 			if success {
 				m.flag("used:sms")
-				if prevSMS == nil || prevSMS.consumed || prevSMS.code != s.Secret {
+				hit := prevSMS.findCode(s.Secret)
+				if hit == nil {
 					return violation("C12", "sms-code-used-twice-or-foreign", "sms validate of %q succeeded with %q; latest code for this browser: %+v", who, s.Secret, prevSMS)
 				}
-				prevSMS.consumed = true
+				hit.consumed = true
 				if _, still := r.SessAfter["sms_secret"]; still {
 					return violation("C12", "sms-code-left-in-session", "after a successful sms validate the code is still in the session")
 				}
@@ -306,6 +425,8 @@ var profC12 = profile{
 	must: []string{"auth", "otp", "logout"}, may: []string{"recover", "lock", "remember"},
 	setups: []string{"totp", "sms", "recovery"}, kinds: kindsC12, minOps: 14, maxOps: 36,
 	accts: [2]int{2, 3}, browsers: [2]int{1, 2}, middlewares: []string{""},
+	// "removed durably before the session is issued": the steps that use a one-time value also run with a backend call failed
+	faultPct: 10, faultOps: []string{"otplogin", "totpvalidate", "smsvalidate"},
 	tweak: func(t *rapid.T, c *harness.Config) {
 		c.EmailAuth = false
 		// lock may be loaded for its hooks (they save the request's user object) but must never lock here
